@@ -815,6 +815,7 @@ func ParseCommands(env *interp.ExecEnv, name string, src interface{}) ([]ast.Com
 
 	l := newLexer(env, name, r)
 	yyParse(l)
+	vpoint(l, vReturn)
 	return l.cmds, l.comments, l.err
 }
 
